@@ -12,6 +12,15 @@ func (TimeSlot).Contains
   requires ts.Start != nil && ts.End != nil
   ensures half-open: result == (*ts.Start <= t && t < *ts.End)
 
+// window_start / window_end of a result: the slot's own bounds in nanoseconds, to the nanosecond (0 without a bound)
+func (*TimeSlot).WindowStart
+  props C01 C02 C08
+  ensures the-start-reported-is-the-slots-own-start-to-the-nanosecond: result == ite(ts == nil || ts.Start == nil, 0, *ts.Start)
+
+func (*TimeSlot).WindowEnd
+  props C01 C02 C08
+  ensures the-end-reported-is-the-slots-own-end-to-the-nanosecond: result == ite(ts == nil || ts.End == nil, 0, *ts.End)
+
 func NewTimeSlot
   props C01 C08
   ensures fresh: fresh(result)
